@@ -58,6 +58,10 @@ type FilterEvent struct {
 }
 
 type Call struct {
+	// per-key error objects a keyed batch reply carries, with a copy taken when they were made (C08: error objects
+	// returned by resource code are not modified)
+	batchErrs                                    []*common.ErrorResponse
+	batchErrSnaps                                []reflect.Value
 	ID                                           int
 	Res                                          *ResDesc
 	Method                                       string
@@ -424,7 +428,13 @@ func (w *World) batchReply(call *Call, ft reflect.Type, in []reflect.Value) []re
 		if kern.Choose(4, "batch-entry-kind") == 3 {
 			st := int32(400 + kern.Choose(100, "batch-err-status"))
 			msg := fmt.Sprintf("err-%d-%s", call.ID, render(k))
-			errs.SetMapIndex(k, reflect.ValueOf(&common.ErrorResponse{Status: &st, Message: &msg}))
+			er := &common.ErrorResponse{Status: &st, Message: &msg}
+			if kern.Choose(4, "batch-err-no-status") == 3 {
+				er.Status = nil // a per-key error that leaves the status to the library
+			}
+			call.batchErrs = append(call.batchErrs, er)
+			call.batchErrSnaps = append(call.batchErrSnaps, deepCopy(reflect.ValueOf(er)))
+			errs.SetMapIndex(k, reflect.ValueOf(er))
 		} else {
 			results.SetMapIndex(k, g.NonNil(results.Type().Elem()))
 		}
